@@ -174,3 +174,11 @@ func mkPartial(mk func(cfg *seqx.Config, prefix string, d int) *seqx.Search, dep
 		seqx.Op{K: "joinlast", A: 1, B: 0, N: 1}, seqx.Op{K: "joinlast", A: 1, B: 0, N: 2})
 	return s
 }
+
+// mkSetID: the three-replica alphabet plus identity changes (to another writer's identity, and to the same user's
+// second-device identity): SetIdentity touches the clock and reads the heads.
+func mkSetID(mk func(cfg *seqx.Config, prefix string, d int) *seqx.Search, depth int) *seqx.Search {
+	s := mk(CfgSetID3, "", depth)
+	s.Alphabet = append(Alphabet(3, false), seqx.Op{K: "setid", A: 0, B: 1}, seqx.Op{K: "setid", A: 1, B: 5})
+	return s
+}
